@@ -4,6 +4,7 @@
 mod common;
 mod refcheck;
 mod c01;
+mod c03;
 
 use common::*;
 
@@ -18,6 +19,7 @@ fn main() {
     match argv[0].as_str() {
         "refcheck" => refcheck::run(&args),
         "c01" => c01::run(&args),
+        "c03" => c03::run(&args),
         other => {
             eprintln!("unknown subcommand {}", other);
             std::process::exit(2);
